@@ -16,6 +16,14 @@ footprint hypothesis is discharged from `step_writes_only` (`Lemmas/d20Conc.lean
 The driver op `heap.conc` runs the same semantics against REAL goroutines
 (`harness/c20_dconc.go`).
 
+Reading (§8, slice d20b): `Set.Values` and what is built on it (`ValueSet.Values`,
+`AsValueSlice` of a set, `PathSet.List`), `convert.Unify` through `unifyTuplesAsList`,
+`UnmarkDeepWithPaths`, `PathSet.Union/Subtract` are modelled cell by cell in
+`CtyModel/HeapD20b.lean` (Go's `append`, the in-place sort, `make` + `copy`) and run by
+the driver op `heapx.run` inside the ordinary histories (`harness/c20_d2.go`).  NOT extended
+to them: the state invariant behind `values_frozen` (that the values THEY create are
+library-owned is shown for the witness histories only) and the goroutine semantics of §7.
+
 What is NOT proved here, and cannot be in this model: anything about the Go memory
 model or scheduler; that goroutines allocate disjoint objects (the arenas of §7 — the
 one-heap variant `shared_heap_untouched` does without, but only for the shared part;
@@ -34,6 +42,8 @@ import CtyModel.Lemmas.d20Strict
 import CtyModel.Lemmas.d20Pure
 import CtyModel.Lemmas.d20Marks
 import CtyModel.Lemmas.d20Fuel
+import CtyModel.Lemmas.d20bStep
+import CtyModel.Lemmas.d20bOwn
 namespace CtyModel
 namespace C20
 open Heap
@@ -845,6 +855,220 @@ theorem shared_heap_untouched (st0 : St) (progs : Nat → List HeapOp) (sched : 
   have hp := List.take_prefix st0.mem.length (Global.exec st0.mem.length (Global.start st0 progs) sched).mem
   rw [ht'] at hp
   exact hp
+
+
+/-! ## 8. Reading does not write: `Values`, `Unify`, `UnmarkDeepWithPaths`, `PathSet.Union/Subtract`
+
+The entry points of `CtyModel/HeapD20b.lean` follow the Go code cell by cell (`append` with
+len/cap/backing array, `sort.SliceStable` in place, `make` + `copy`).  The driver op
+`heapx.run` diffs histories that mix them with the steps of §1–§4 against the real code
+(`harness/c20_d2.go`): fingerprints after every step, and len/cap/backing-array identity of
+every slice and bucket at the end.  Each `_seeded_counterexample` is the shape of a seeded
+change that survived the earlier check (`/verif/seeded/C20-…`): the theorem about the current
+shape is false of it. -/
+
+/-- **`Set[T].Values()` writes no cell of the heap it finds** — none reachable from the set,
+none of any other object, not even spare capacity of a bucket's backing array: the heap
+after the call is the heap before it plus what the call allocated, and the slice it returns
+is over an array of its own.  (`ret` starts as the nil slice, so the first `append`
+allocates; every later `append` and the ordering sort write that array or a grown copy.) -/
+theorem set_values_writes_nothing {m m' : Mem} {own : Owner} {a : Addr} {ordered : Bool} {perm : List Nat}
+    {r : Word} (h : setValuesGo m own a ordered perm = some (m', r)) :
+    m <+: m' ∧ ∀ arr off len cap, r = .slice arr off len cap → m.length ≤ arr :=
+  ⟨ext_prefix (pres_setValuesGo (Ext.refl NoW m) h).1, setValuesGo_fresh h⟩
+
+/-- `v := cty.SetVal({unk u0, unk u1, unk u2, "a"})`: the three unknowns share bucket 1
+(`len 3, cap 4`), `"a"` is alone in bucket 2 -/
+def setReadPre : List HeapOp :=
+  [.api (.unknownVal "string" "u0"), .api (.unknownVal "string" "u1"), .api (.unknownVal "string" "u2"),
+   .api (.stringVal "a"), .caller (.newSlice [0, 1, 2, 3] 0), .api (.setVal 0 [1, 1, 1, 2])]
+
+/-- **the seeded `Values` (`ret := s.vals[bucketIDs[0]]`) is caught.**  `v.AsValueSlice()` on the
+set above: the append of bucket 2 finds room in bucket 1's array and the ordering sort (`"a"`
+first) permutes that array — the heap is no extension of the old one and the SET VALUE reads
+differently (`u2` gone, `"a"` twice).  The current code on the same history: an extension, the
+value as it was. -/
+theorem set_values_seeded_counterexample :
+    let st := run {} setReadPre
+    ((valValuesSeeded st 4 [3, 0, 1, 2]).map fun bad =>
+      !st.mem.isPrefixOf bad.mem && fp 8 bad.mem st.vals[4]! != fp 8 st.mem st.vals[4]!) = some true ∧
+    ((stepXApi st (.valValues 4 [3, 0, 1, 2])).map fun good =>
+      st.mem.isPrefixOf good.mem && fp 8 good.mem st.vals[4]! == fp 8 st.mem st.vals[4]!) = some true := by
+  decide
+
+/-- **Every added entry point writes nothing that existed** — `ValueSet.Values`,
+`Value.AsValueSlice` of a set, `PathSet.List`, the inner `Values()`, `convert.Unify` through
+`unifyTuplesAsList`, `UnmarkDeepWithPaths`, `PathSet.Union`, `PathSet.Subtract`: in every
+state, whatever the arguments, no ownership hypothesis.  In particular the `[]cty.Type`
+handed to `Unify` — the caller's, or the `ElemTypes` of an existing tuple type when
+`Convert` / `setproduct` pass `Type.TupleElementTypes()` — is in no write set. -/
+theorem read_entry_points_write_nothing {st st' : St} {c : XApi} (h : stepXApi st c = some st') :
+    st.mem <+: st'.mem ∧
+      ∀ f w, frozen f st.mem w = true → fp f st'.mem w = fp f st.mem w ∧ frozen f st'.mem w = true :=
+  ⟨stepXApi_prefix h, fun f w hw =>
+    ⟨fp_stable (ext_noW_preserves (stepXApi_ext h)) f w hw,
+     frozen_stable (ext_noW_preserves (stepXApi_ext h)) f w hw⟩⟩
+
+/-- **`unifyTuplesAsList` substitutes in a copy**: the heap after it extends the heap before
+it (`listed := make; copy; listed[idx] = ty` writes an array of its own). -/
+theorem unify_keeps_callers_slice {m m' : Mem} {types ty : Word}
+    (h : unifyTuplesAsListGo m types = some (m', ty)) : m <+: m' :=
+  ext_prefix (pres_unifyGo h)
+
+/-- `v := TupleVal{TupleVal{"a","b"}, ListVal{"a","b"}}; tys := v.Type().TupleElementTypes()` -/
+def unifyPre : List HeapOp :=
+  [.api (.stringVal "a"), .api (.stringVal "b"), .caller (.newSlice [0, 1] 0), .api (.tupleVal 0), .api (.listVal 0),
+   .caller (.newSlice [2, 3] 0), .api (.tupleVal 1), .api (.tupleElementTypes 4)]
+
+/-- **the seeded `unifyTuplesAsList` (`types[idx] = ty`) is caught**: `Unify(tys)` answers
+`list(string)` in both shapes, but the seeded one turns the TYPE of the existing value `v`
+from `tuple(tuple(string,string), list(string))` into `tuple(list(string), list(string))`. -/
+theorem unify_seeded_counterexample :
+    let st := run {} unifyPre
+    frozen 8 st.mem st.vals[4]! = true ∧
+    ((unifySeeded st 2).map fun bad =>
+      bad.vals.drop 5 == [.pair (.tlist (.tprim "string")) .null] &&
+      fp 8 bad.mem st.vals[4]! != fp 8 st.mem st.vals[4]!) = some true ∧
+    ((stepXApi st (.unify 2)).map fun good =>
+      good.vals.drop 5 == [.pair (.tlist (.tprim "string")) .null] &&
+      fp 8 good.mem st.vals[4]! == fp 8 st.mem st.vals[4]!) = some true := by
+  decide
+
+/-- **What the added entry points hand out is their own**: the Go object directly behind
+every Go-data register they create — the `[]Value` / `[]Path` of `Values` / `List`, every
+path and every MARK SET in the `[]PathValueMarks` of `UnmarkDeepWithPaths`, the set
+`Union` / `Subtract` answer (also for an empty operand) — was allocated by that very call:
+no object that existed before, let alone one a value or an operand is made of.  The
+caller may write it at will. -/
+theorem read_entry_points_return_fresh {st st' : St} {c : XApi} (h : stepXApi st c = some st') :
+    ∀ g ∈ st'.gos.drop st.gos.length, ∀ a, goRoot g = some a → st.mem.length ≤ a :=
+  stepXApi_fresh h
+
+/-- **The slice `ValueSet.Values`, `Value.AsValueSlice` of a set and `PathSet.List` answer is
+the caller's**: one new Go-data register, nil or a slice over an array allocated by this call
+and caller-owned in the heap the call leaves — writing its cells is a respectful caller
+action; the set that was read is in no write set (`read_entry_points_write_nothing`). -/
+theorem values_results_are_callers {st st' : St} {c : XApi}
+    (hc : (∃ g p, c = .vsValues g p) ∨ (∃ v p, c = .valValues v p) ∨ (∃ g, c = .psList g))
+    (h : stepXApi st c = some st') :
+    ∃ g, st'.gos = st.gos ++ [g] ∧
+      ∀ x, goRoot g = some x → st.mem.length ≤ x ∧ ownerOf st'.mem x = some .caller := by
+  have key : ∀ {a ordered perm wrap}, collectValues st a ordered perm wrap = some st' →
+      ∃ g, st'.gos = st.gos ++ [g] ∧
+        ∀ x, goRoot g = some x → st.mem.length ≤ x ∧ ownerOf st'.mem x = some .caller := by
+    intro a ordered perm wrap he
+    obtain ⟨g, hg, ho⟩ := collectValues_owned he
+    obtain ⟨_, g', hg', hf⟩ := collectValues_fresh he
+    have : g' = g := by rw [hg] at hg'; simpa using hg'.symm
+    subst this
+    exact ⟨g', hg, fun x hx => ⟨hf x hx, ho x hx⟩⟩
+  rcases hc with ⟨g, p, rfl⟩ | ⟨v, p, rfl⟩ | ⟨g, rfl⟩ <;> simp only [stepXApi] at h <;> split at h
+  all_goals first | exact key h | cases h
+
+/-- **`UnmarkDeepWithPaths` returns COPIES**: every Go-data register the call creates is a
+path or a mark set whose object was allocated by the call AND belongs to the caller in the
+heap the call leaves — so `pvm[i].Marks[k] = …` and `pvm[i].Path[j] = …` on them are
+respectful caller actions (no side condition of `fingerprints_stable_ext_partial` is
+touched), whatever the value was and wherever its marks sat. -/
+theorem unmarkDeepWithPaths_returns_copies {st st' : St} {v : Nat}
+    (h : stepXApi st (.unmarkDeepWithPaths v) = some st') :
+    (∀ g ∈ st'.gos.drop st.gos.length, ∃ a, goRoot g = some a ∧ st.mem.length ≤ a ∧
+      ownerOf st'.mem a = some .caller) ∧
+    ∀ i w, st.gos.length ≤ i → st'.gos[i]? = some w → ∀ mk j name,
+      respectful st' (.caller (.marksAdd i mk)) = true ∧ respectful st' (.caller (.setStep i j name)) = true := by
+  have hown := unmarkDeepWithPaths_owned h
+  refine ⟨fun g hg => ?_, fun i w hi hw mk j name => ?_⟩
+  · obtain ⟨a, ha, ho⟩ := hown g hg
+    exact ⟨a, ha, stepXApi_fresh h g hg a ha, ho⟩
+  · have hmem : w ∈ st'.gos.drop st.gos.length := by
+      rw [List.mem_iff_getElem?]
+      exact ⟨i - st.gos.length, by rw [List.getElem?_drop]; rw [Nat.add_sub_cancel' hi]; exact hw⟩
+    obtain ⟨a, ha, ho⟩ := hown w hmem
+    cases w <;> simp [goRoot] at ha <;> simp [respectful, callerTarget, St.go, hw] <;> (subst ha; exact ho)
+
+/-- `v := TupleVal{"x".Mark("m"), 1}.Mark("top")` -/
+def unmarkPre : List HeapOp :=
+  [.api (.stringVal "x"), .api (.mark 0 "m"), .api (.numberIntVal 1), .caller (.newSlice [1, 2] 0),
+   .api (.tupleVal 0), .api (.mark 3 "top")]
+
+/-- **the seeded `unmarkTransformer.Enter` (records `mr.marks` itself) is caught**:
+`_, pvm := v.UnmarkDeepWithPaths()` hands out the mark set of `"x".Mark("m")` (object 0 of
+the heap, library-owned), and `pvm[1].Marks["zz"] = struct{}{}` changes the existing value.
+The current code hands out copies: the same write is a respectful caller action and the
+value stays. -/
+theorem unmark_seeded_counterexample :
+    let st := run {} unmarkPre
+    ((unmarkDeepWithPathsSeeded st 4).map fun bad =>
+      bad.gos[4]! == .marks 0 && ownerOf bad.mem 0 == some .lib &&
+      fp 8 (run bad [.caller (.marksAdd 4 "zz")]).mem st.vals[1]! != fp 8 st.mem st.vals[1]!) = some true ∧
+    ((stepXApi st (.unmarkDeepWithPaths 4)).map fun good =>
+      respectful good (.caller (.marksAdd 4 "zz")) && respectful good (.caller (.setStep 3 0 "zz")) &&
+      fp 8 (run good [.caller (.marksAdd 4 "zz"), .caller (.setStep 3 0 "zz")]).mem st.vals[1]! ==
+        fp 8 st.mem st.vals[1]!) = some true := by
+  decide
+
+/-- `s := NewPathSet(a, a.b); e := NewPathSet()` -/
+def unionPre : List HeapOp :=
+  [.caller .nilPath, .api (.pathGetAttr 0 "a"), .api (.pathGetAttr 1 "b"), .api .newPathSet, .api .newPathSet,
+   .api (.psAdd 3 1 7), .api (.psAdd 3 2 7), .api (.pathGetAttr 0 "c")]
+
+/-- **the seeded `PathSet.Union` (an empty operand answers the other operand) is caught**:
+`r := s.Union(e); r.Add(c)` changes `s`.  With the current code `r` is a set of its own
+(`read_entry_points_return_fresh`) and `s` stays. -/
+theorem pathset_union_seeded_counterexample :
+    let st := run {} unionPre
+    ((psUnionSeeded st 3 4 [7, 7]).map fun bad =>
+      bad.gos[6]! == st.gos[3]! &&
+      fp 8 (run bad [.api (.psAdd 6 5 9)]).mem st.gos[3]! != fp 8 st.mem st.gos[3]!) = some true ∧
+    ((stepXApi st (.psUnion 3 4 [7, 7])).map fun good =>
+      good.gos[6]! != st.gos[3]! && fp 8 good.mem good.gos[6]! == fp 8 st.mem st.gos[3]! &&
+      fp 8 (run good [.api (.psAdd 6 5 9)]).mem st.gos[3]! == fp 8 st.mem st.gos[3]!) = some true ∧
+    ((stepXApi st (.psSubtract 3 4 [7, 7])).map fun good =>
+      good.gos[6]! != st.gos[3]! && fp 8 good.mem good.gos[6]! == fp 8 st.mem st.gos[3]! &&
+      fp 8 (run good [.api (.psAdd 6 5 9)]).mem st.gos[3]! == fp 8 st.mem st.gos[3]!) = some true := by
+  decide
+
+/-- **Fingerprints are stable — histories with the added entry points.**  From ANY state,
+any word whose storage is library-owned, any history of the 49 + 18 steps of §1–§4 and the
+eight added entry points that respects the ownership rules (`respectfulRunX`: the added
+entry points ask for nothing): the word reports the same deep content afterwards.
+`_partial` as `fingerprints_stable_partial` is: the excluded caller writes are the documented
+transfers.  (That the values the added entry points CREATE are library-owned is shown for
+the witness histories below, not for all histories: `values_frozen` is not extended.) -/
+theorem fingerprints_stable_ext_partial (st : St) (ops : List XOp) (f : Nat) (w : Word)
+    (hw : frozen f st.mem w = true) (hr : respectfulRunX st ops = true) :
+    fp f (runX st ops).mem w = fp f st.mem w :=
+  fp_stable (runX_preserves ops st hr) f w hw
+
+/-- …in strict form: every step applies (`runXStrict … = some _`), no skipped step carries it -/
+theorem fingerprints_stable_ext_strict (st st' : St) (ops : List XOp) (f : Nat) (w : Word)
+    (hw : frozen f st.mem w = true) (hs : runXStrict st ops = some st') (hr : respectfulRunX st ops = true) :
+    fp f st'.mem w = fp f st.mem w := by
+  have := fingerprints_stable_ext_partial st ops f w hw hr
+  rwa [runXStrict_runX ops st st' hs] at this
+
+/-- a history through all of it: build the set value of `setReadPre`, read it three ways, put
+it into a ValueSet and take `Values`, then caller writes to everything handed out -/
+def readHistory : List XOp :=
+  setReadPre.map .base ++
+  [.x (.valValues 4 [3, 0, 1, 2]), .base (.api (.asValueSet 4 [1, 1, 1, 2])), .x (.vsValues 2 [3, 0, 1, 2]),
+   .base (.caller (.setElem 1 0 3)), .base (.caller (.setElem 3 1 3)), .x (.valValues 4 [3, 0, 1, 2])]
+
+/-- the hypotheses are jointly satisfiable by non-trivial instances: the history above and the
+witness histories of the counterexamples followed by the current entry point are strict and
+respectful, the set value is library-owned, and what `UnmarkDeepWithPaths` builds is too -/
+example :
+    (runXStrict {} readHistory).isSome = true ∧ respectfulRunX {} readHistory = true ∧
+    frozen 8 (run {} setReadPre).mem (run {} setReadPre).vals[4]! = true ∧
+    (runXStrict {} (unifyPre.map .base ++ [.x (.unify 2)])).isSome = true ∧
+    (runXStrict {} (unmarkPre.map .base ++ [.x (.unmarkDeepWithPaths 4), .base (.caller (.marksAdd 4 "zz"))])).isSome = true ∧
+    respectfulRunX {} (unmarkPre.map .base ++ [.x (.unmarkDeepWithPaths 4), .base (.caller (.marksAdd 4 "zz"))]) = true ∧
+    (let st := runX {} (unmarkPre.map .base ++ [.x (.unmarkDeepWithPaths 4)])
+     frozen 8 st.mem st.vals[5]! = true) ∧
+    (runXStrict {} (unionPre.map .base ++ [.x (.psUnion 3 4 [7, 7]), .x (.psSubtract 3 4 [7, 7]), .x (.psList 6),
+      .x (.psValues 3)])).isSome = true := by
+  decide
+
 
 end C20
 end CtyModel
